@@ -3,7 +3,7 @@
 From Coq Require Import String List Bool NArith ZArith.
 From OP Require Import Base.Str Base.Check Base.ParserTypes Base.Res Base.Json Base.Sx Base.DTree
                        Gen.GParser Gen.GChecks Gen.GPolicy
-                       Model.Leaf Model.SR Model.Tokenize Model.Print Model.Eval Model.Trace Model.Enforce Model.CheckRules Model.Load Model.Pick
+                       Model.Leaf Model.SR Model.Tokenize Model.Print Model.Eval Model.Trace Model.Enforce Model.CheckRules Model.Load Model.Pick Model.Http
                        Spec.Grammar Spec.ListRule Spec.Template Spec.LeafSpec Spec.Layering.
 Import ListNotations.
 Set Implicit Arguments.
@@ -439,6 +439,52 @@ Definition suite_pick (args : list sx) : sx :=
   | _ => bad
   end.
 
+(* ---------- remote checks ---------- *)
+Fixpoint sx_of_jv (v : jv) : sx :=
+  match v with
+  | JNull => L [A 0]
+  | JBool b => L [A 1; sx_of_bool b]
+  | JInt z => L [A 2; A z]
+  | JFloat r => L [A 3; sx_of_str r]
+  | JStr x => L [A 4; sx_of_str x]
+  | JList l => L [A 5; L ((fix go (l : list jv) : list sx :=
+                             match l with [] => [] | x :: r => sx_of_jv x :: go r end) l)]
+  | JDict kvs => L [A 6; L ((fix go (l : list (str * jv)) : list sx :=
+                               match l with [] => [] | (k, x) :: r => L [sx_of_str k; sx_of_jv x] :: go r end) kvs)]
+  | JObj t => L [A 7; sx_of_N t]
+  end.
+
+(* [form?; current rule (option); target; creds] -> [form?; rule; target; credentials] *)
+Definition suite_payload (args : list sx) : sx :=
+  match args with
+  | [f; cur; tgt; creds] =>
+      match dbool f, dopt dstr cur, djv tgt, djv creds with
+      | Some f', Some cur', Some t, Some c =>
+          match construct_payload f' cur' t c with
+          | PForm r t' c' => L [A 1; sx_of_jv r; sx_of_jv t'; sx_of_jv c']
+          | PJson r t' c' => L [A 0; sx_of_jv r; sx_of_jv t'; sx_of_jv c']
+          end
+      | _, _, _, _ => bad end
+  | _ => bad
+  end.
+
+(* [cert; key; ca; verify] each file = () | (exists readable) -> res verify *)
+Definition dfstat (x : sx) : option (option fstat) :=
+  match x with
+  | L [] => Some None
+  | L [A e; A r] => Some (Some {| f_exists := negb (e =? 0); f_readable := negb (r =? 0) |})
+  | _ => None end.
+Definition suite_tls (args : list sx) : sx :=
+  match args with
+  | [c; k; ca; v] =>
+      match dfstat c, dfstat k, dfstat ca, dbool v with
+      | Some c', Some k', Some ca', Some v' =>
+          sx_of_res (fun r => A (match r with VFalse => 0 | VTrue => 1 | VCaFile => 2 end))
+                    (tls_precheck {| t_cert := c'; t_key := k'; t_ca := ca'; t_verify := v' |})
+      | _, _, _, _ => bad end
+  | _ => bad
+  end.
+
 Definition wire_main (x : sx) : sx :=
   match x with
   | L (A 1 :: args) => suite_tokenize args
@@ -453,5 +499,7 @@ Definition wire_main (x : sx) : sx :=
   | L (A 10 :: args) => suite_load args
   | L (A 11 :: args) => suite_spec_load args
   | L (A 12 :: args) => suite_pick args
+  | L (A 13 :: args) => suite_payload args
+  | L (A 14 :: args) => suite_tls args
   | _ => sx_err 1
   end.
